@@ -1,6 +1,7 @@
 package check
 
 import (
+	"bytes"
 	"encoding/json"
 	"flag"
 	"fmt"
@@ -12,6 +13,7 @@ import (
 	"time"
 
 	"go.flow.arcalot.io/engine/zverif/harness"
+	"go.flow.arcalot.io/engine/zverif/ir"
 	"go.flow.arcalot.io/engine/zverif/simrt"
 	"pgregory.net/rapid"
 )
@@ -425,6 +427,58 @@ func TestWorker(t *testing.T) {
 }
 
 // TestReplay replays a replay file: exit status 0 = no longer fails, 1 = same violation, 2 = trouble.
+// exactNumbers turns the json.Number values of a decoded document into int64 (when integral) or float64.
+func exactNumbers(v any) any {
+	switch x := v.(type) {
+	case map[string]any:
+		for k, y := range x {
+			x[k] = exactNumbers(y)
+		}
+		return x
+	case []any:
+		for i := range x {
+			x[i] = exactNumbers(x[i])
+		}
+		return x
+	case json.Number:
+		if i, err := x.Int64(); err == nil {
+			return i
+		}
+		f, _ := x.Float64()
+		return f
+	}
+	return v
+}
+
+// fixProgramNumbers does the same for the literals of a decoded program.
+func fixProgramNumbers(p *ir.Program) {
+	var fix func(e *ir.Expr)
+	fix = func(e *ir.Expr) {
+		ir.Walk(e, func(x *ir.Expr) {
+			if x.K == "lit" {
+				x.V = exactNumbers(x.V)
+			}
+		})
+	}
+	for _, s := range p.Steps {
+		for _, e := range s.Exprs() {
+			fix(e)
+		}
+		fix(s.Items)
+		fix(s.Parallelism)
+		if s.Deploy != nil {
+			fix(s.Deploy.Latency)
+			fix(s.Deploy.Mode)
+		}
+	}
+	for _, o := range p.Outputs {
+		fix(o.E)
+	}
+	for _, sub := range p.Subs {
+		fixProgramNumbers(sub)
+	}
+}
+
 func TestReplay(t *testing.T) {
 	path := os.Getenv("VERIF_REPLAY")
 	if path == "" {
@@ -436,9 +490,31 @@ func TestReplay(t *testing.T) {
 		os.Exit(2)
 	}
 	var rf ReplayFile
-	if err := json.Unmarshal(b, &rf); err != nil {
+	// numbers are decoded exactly: a document may hold integers beyond 2^53 (C07's extreme numbers), which
+	// a float64 round trip would change
+	dec := json.NewDecoder(bytes.NewReader(b))
+	dec.UseNumber()
+	if err := dec.Decode(&rf); err != nil {
 		fmt.Printf("HARNESS-ERROR %v\n", err)
 		os.Exit(2)
+	}
+	if rf.Case != nil {
+		if d, ok := exactNumbers(map[string]any(rf.Case.Doc)).(map[string]any); ok {
+			rf.Case.Doc = d
+		}
+		for i := range rf.Case.Clients {
+			rf.Case.Clients[i].Input = exactNumbers(rf.Case.Clients[i].Input)
+		}
+		if rf.Case.Prov != nil {
+			for i := range rf.Case.Prov.Actions {
+				if m, ok := exactNumbers(rf.Case.Prov.Actions[i].Arg).(map[string]any); ok {
+					rf.Case.Prov.Actions[i].Arg = m
+				}
+			}
+		}
+		if rf.Case.Program != nil {
+			fixProgramNumbers(rf.Case.Program)
+		}
 	}
 	def := Props[rf.Property]
 	if def == nil {
